@@ -215,10 +215,24 @@ func Logf(format string, a ...any) {
 
 func (s *Sim) Hash() uint64 { return s.h.Sum64() }
 
+// FreePerturb makes Yield outside a simulation call runtime.Gosched now and
+// then (auxiliary race lane: un-gated runs under the race detector).
+var FreePerturb atomic.Bool
+var perturbCtr atomic.Uint64
+
+func perturb() {
+	if FreePerturb.Load() {
+		if x := perturbCtr.Add(0x9e3779b97f4a7c15); (x>>33)%3 == 0 {
+			runtime.Gosched()
+		}
+	}
+}
+
 // Yield parks the calling goroutine until the scheduler releases it.
 func Yield(site string) {
 	s := cur.Load()
 	if s == nil {
+		perturb()
 		return
 	}
 	g := s.me()
